@@ -63,7 +63,9 @@ def run(ctx):
         return ctx.tlc_gen(SPEC, "GenMutableFile.tla", name, **kw)
 
     sets = []
-    if ctx.quick:
+    if os.environ.get("VERIF_SKIP_G"):      # debugging aid: phase T only
+        pass
+    elif ctx.quick:
         sets.append(("bfs2", gen("GenMutableFileD2.cfg", timeout=2400, workers=4)))
         sets.append(("sim", gen("GenMutableFileSim.cfg", simulate=6, depth=21 * 10 + 1, timeout=1800, workers=1)))
     else:
